@@ -226,6 +226,20 @@ func (this *DefaultInputBitStream) readFromInputStream(count int) (int, error) {
 
 	this.read += (int64(this.position << 3))
 	size, err := this.is.Read(this.buffer[0:count])
+
+	// A short read is not the end of the stream: complete the last 64-bit word
+	// so that a partial word is only ever seen at the very end of the data.
+	for err == nil && size > 0 && size < count && size&7 != 0 {
+		var n int
+		n, err = this.is.Read(this.buffer[size:min(count, (size+7)&-8)])
+
+		if n <= 0 && err == nil {
+			break
+		}
+
+		size += max(n, 0)
+	}
+
 	this.position = 0
 
 	if size <= 0 {
